@@ -92,7 +92,22 @@ pub async fn run_acb_app_to_delta_models(
     let mut delta_results = HashMap::<Security, DeltaListResult>::new();
 
     for (sec, mut sec_txs) in txs_by_sec {
-        crate::portfolio::splits::replace_global_security_splits(&mut sec_txs)?;
+        // A problem with one security's splits is that security's error; it
+        // must not stop the other securities from being processed.
+        if let Err(e) =
+            crate::portfolio::splits::replace_global_security_splits(&mut sec_txs)
+        {
+            delta_results.insert(
+                sec,
+                DeltaListResult(Err(
+                    crate::portfolio::bookkeeping::TxDeltaListError::new(
+                        Vec::new(),
+                        e,
+                    ),
+                )),
+            );
+            continue;
+        }
 
         let sec_init_status =
             all_init_status.get(&sec).map(|o| std::rc::Rc::new(o.clone()));
